@@ -6,6 +6,7 @@ package app
 // judged by TLC (spec/ClusterRows*.tla).
 
 import (
+	"runtime/pprof"
 	"encoding/json"
 	"fmt"
 	"os"
@@ -664,6 +665,17 @@ func vRun(t *testing.T, sc *vScenario, opt vRunOpts) (res *vRunResult) {
 	if out := os.Getenv("VERIF_OUT"); out != "" {
 		_ = os.WriteFile(filepath.Join(out, "current.json"), []byte(sc.json()), 0o644)
 	}
+	// REAL-time watchdog (armed outside the bubble): a scenario that does not end - a handler of mysync that loops for
+	// ever on the virtual clock - is reported with every goroutine's stack and the process exits; the checker attributes
+	// it to the scenario recorded above and resumes the shard without it
+	hangAfter := time.Duration(vEnvInt("VERIF_HANG_S", 180)) * time.Second
+	wd := time.AfterFunc(hangAfter, func() {
+		fmt.Fprintf(os.Stderr, "\nVERIF-HANG scenario=%s did not end within %s of real time\n", sc.ID, hangAfter)
+		pprof.Lookup("goroutine").WriteTo(os.Stderr, 2)
+		fmt.Fprintf(os.Stderr, "\nVERIF-HANG-END\n")
+		os.Exit(3)
+	})
+	defer wd.Stop()
 	if vSkipSet == nil {
 		vSkipSet = map[string]bool{}
 		if f := os.Getenv("VERIF_SKIPFILE"); f != "" {
